@@ -241,6 +241,7 @@ def self_reference(chk, dprog, cfg):
                 ap = paths.access_path(b, b.operand_term(t["args"][0]))
                 args_ok &= ap is not None and ap[0] == F and paths.norm(ap[1]).endswith(".ty")
         table = {}
+        skip_fns = {p_ for p_, r_ in cd.recognisers(dprog).items() if r_["keys"] == {"skip"}}
         try:
             for A in (False, True):
                 for B in (False, True):
@@ -249,6 +250,10 @@ def self_reference(chk, dprog, cfg):
                             return A
                         if name.endswith("type_or_sub_type_path_starts_with_ident"):
                             return B
+                        if mir.strip_generics(name) in skip_fns:
+                            return False      # the table is about members that are described (the skip filter may live in the same closure)
+                        if name.split("::")[-1] in ("deref", "as_slice", "as_ref", "borrow") and len(args) == 1:
+                            return args[0]
                         return None
                     env = {1: absint.Sym("env"), 2: absint.Sym("field")}
                     # projections of opaque symbols: give the interpreter structured stand-ins
